@@ -59,3 +59,25 @@ Fixpoint rfailing_from (i : N) (l : list rcase) : list (N * (N * N)) :=
   end.
 Definition rfailing (l : list rcase) : list (N * (N * N)) := rfailing_from 0 l.
 End Corr.
+
+(** * KeysCorr: the finite model Keys.v against what gearpy's elements advertise and record *)
+From GP Require Import Keys.
+Inductive kexp := KRaises | KRecorded (final_keys : list string) (full_keys : list string).   (* keys of the dict; keys with one sample per instant *)
+Record kcase := { kc_cfg : kcfg; kc_ctor : list string; kc_exp : kexp }.
+Fixpoint strs_eqb (a b : list string) : bool :=
+  match a, b with [], [] => true | x :: a', y :: b' => String.eqb x y && strs_eqb a' b' | _, _ => false end.
+Definition kcase_code (k : kcase) : N :=
+  if negb (strs_eqb (ctor_keys (kc_cfg k)) (kc_ctor k)) then 1%N else
+  match kc_exp k with
+  | KRaises => if instant_raises (kc_cfg k) then 0%N else 2%N
+  | KRecorded fin full =>
+      if instant_raises (kc_cfg k) then 3%N else
+      if negb (strs_eqb (advertised (kc_cfg k)) fin) then 4%N else
+      if negb (strs_eqb (appended (kc_cfg k)) full) then 5%N else 0%N
+  end.
+Fixpoint kfailing_from (i : N) (l : list kcase) : list (N * (N * N)) :=
+  match l with
+  | [] => []
+  | g :: l' => let c := kcase_code g in if N.eqb c 0 then kfailing_from (N.succ i) l' else (i, (c, 0%N)) :: kfailing_from (N.succ i) l'
+  end.
+Definition kfailing (l : list kcase) : list (N * (N * N)) := kfailing_from 0 l.
